@@ -188,7 +188,15 @@ def apply(op, f1, wd, state):
         t, symm, pix, _ = content(d)
         bdf = build.bins_df(bins_of(t))
         if ordered:
-            cooler.create_cooler(f1 + "::" + p, bdf, pixframe(pix), ordered=True, symmetric_upper=symm, mode="a")
+            # a whole data frame may come in any row order (create_cooler must sort it): rows grouped by bin1 ascending but with
+            # bin2 DESCENDING inside each row for data sets 0/2, fully reversed for data set 1
+            fr = pixframe(pix)
+            if d in (0, 2):
+                fr = fr.sort_values(["bin1_id", "bin2_id"], ascending=[True, False]).reset_index(drop=True)
+            elif d == 1:
+                fr = fr.iloc[::-1].reset_index(drop=True)
+            cooler.create_cooler(f1 + "::" + p, bdf, fr if p != "/x/y" else {c: fr[c].values for c in fr.columns}, ordered=True,
+                                 symmetric_upper=symm, mode="a")
         else:
             keys = sorted(pix)
             half = len(keys) // 2
